@@ -204,6 +204,26 @@ class PybindWrapper:
 
         return ret
 
+    @staticmethod
+    def _cpp_string_literal(text: str) -> str:
+        """
+        Escape `text` so that it can be placed between double quotes on a
+        single line of C++ source and decodes (as UTF-8) to exactly `text`.
+        Non-printable characters become octal escapes of their UTF-8 bytes:
+        unlike `\\x..`, an octal escape ends after three digits, so it cannot
+        absorb a following hex digit.
+        """
+        simple = {'"': '\\"', '\\': '\\\\', '\n': '\\n', '\t': '\\t', '\r': '\\r'}
+        out = []
+        for ch in text:
+            if ch in simple:
+                out.append(simple[ch])
+            elif ch.isprintable():
+                out.append(ch)
+            else:
+                out.extend('\\%03o' % byte for byte in ch.encode('utf-8'))
+        return ''.join(out)
+
     def _wrap_method(self,
                      method,
                      cpp_class,
@@ -277,9 +297,7 @@ class PybindWrapper:
                    suffix=suffix,
                    # Try to get the function's docstring from the Doxygen XML.
                    # If extract_docstring errors or fails to find a docstring, it just prints a warning.
-                   # The incantation repr(...)[1:-1].replace('"', r'\"') replaces newlines with \n 
-                   # and " with \" so that the docstring can be put into a C++ string on a single line.
-                   docstring=', "' + repr(self.xml_parser.extract_docstring(self.xml_source, cpp_class, cpp_method, method.args.names()))[1:-1].replace('"', r'\"') + '"' 
+                   docstring=', "' + self._cpp_string_literal(self.xml_parser.extract_docstring(self.xml_source, cpp_class, cpp_method, method.args.names())) + '"' 
                        if self.xml_source != "" else "",
                ))
 
